@@ -149,6 +149,10 @@ type renameOnCloseFile struct {
 	tempPath  string
 	finalPath string
 	published bool
+	// dead is set once this writer must not touch its paths any more: Abort
+	// ran, or the ".tmp" path was found to no longer name the open file. The
+	// names may since have been handed to a newer writer.
+	dead bool
 }
 
 func (f *renameOnCloseFile) Write(p []byte) (int, error) {
@@ -158,6 +162,11 @@ func (f *renameOnCloseFile) Write(p []byte) (int, error) {
 }
 
 func (f *renameOnCloseFile) Close() error {
+	if f.dead || f.lostTemp() {
+		f.dead = true
+		f.file.Close()
+		return fmt.Errorf("%w: %s", errWriterLostTempFile, f.tempPath)
+	}
 	verifEventS("fs.sync", 0, 0, f.tempPath)
 	if err := f.file.Sync(); err != nil {
 		verifEventS("fs.sync", 2, 0, f.tempPath)
@@ -199,6 +208,15 @@ func (f *renameOnCloseFile) Abort() error {
 	if f.published {
 		return nil
 	}
+	if f.dead || f.lostTemp() {
+		// Nothing of this write is left under its names (TombstoneFile on the
+		// pointer removed it, or an earlier Abort did); they may belong to a
+		// newer writer now.
+		f.dead = true
+		f.file.Close()
+		return nil
+	}
+	f.dead = true
 	// The handle may already be closed by a failed Close; that error carries
 	// no information here.
 	verifEventS("fs.hclose", 0, 1, f.tempPath)
@@ -218,6 +236,26 @@ func (f *renameOnCloseFile) Abort() error {
 	}
 	verifEventS("fs.remove", 3, 1, f.finalPath)
 	return errors.Join(errs...)
+}
+
+// errWriterLostTempFile is returned by Close when the writer was aborted or its
+// ".tmp" path no longer names the file it holds open.
+var errWriterLostTempFile = errors.New("writer aborted, or its temp file was removed or replaced while it was open")
+
+// lostTemp reports whether tempPath has stopped naming the file this writer
+// holds open: the pointer was tombstoned mid-write (and the name possibly
+// drawn again by a newer CreateFile). Close and Abort act on paths, so without
+// this check a stale writer would publish, or delete, the newer writer's
+// file. The comparison needs the open handle (it pins the inode, so its
+// identity cannot be recycled); once the handle is closed there is nothing to
+// compare and the answer is false.
+func (f *renameOnCloseFile) lostTemp() bool {
+	held, err := f.file.Stat()
+	if err != nil {
+		return false
+	}
+	current, err := os.Lstat(f.tempPath)
+	return err != nil || !os.SameFile(held, current)
 }
 
 // syncDir fsyncs a directory so metadata operations in it (renames, removes)
